@@ -43,7 +43,7 @@ EXTRAS_T = ([], [("p", 2)], [("p", 2), ("q", 2)], [("p", 3), ("q", 2)])
 TOL = 1e-12
 
 
-VIAS = ("ctor", "set_prms", "reparam", "positional", "attrs", "copy-reparam", "used")
+VIAS = ("ctor", "set_prms", "reparam", "positional", "attrs", "copy-reparam", "used", "nudge")
 
 
 def shape_pairs(extra, tier):
@@ -79,6 +79,8 @@ def units(tier, seed):
     for g in gs:
         for li in range(len(dsm.LT)):
             out.append(dict(grid=list(g), lt=li, tier=tier))
+    for dist in ("NormalLifetime", "WeibullLifetime", "FixedLifetime"):
+        out.append(dict(large=True, dist=dist, tier=tier))
     return out
 
 
@@ -149,15 +151,97 @@ def run_case(grid, li, quad, extra, shapes2, via):
     return "table-agrees", None
 
 
+def large_setup(dist):
+    import numpy as np
+
+    import flodym
+
+    grid = tuple(range(2000, 2012))
+    n, npr = len(grid), 100
+    extra = [("p", npr)]
+    dims = dsm_impl.make_dims(grid, extra)
+    labs = dsm_impl.labels(extra)
+    names = {"NormalLifetime": ("mean", "std"), "WeibullLifetime": ("weibull_shape", "weibull_scale"), "FixedLifetime": ("mean",)}[dist]
+
+    def pfun(variant):
+        def f(nm, c, lab):
+            j = lab[0]
+            base = {"mean": 3.3 + 0.01 * j + 0.1 * c, "std": 1.0 + 0.002 * j, "weibull_shape": 1.5 + 0.003 * j, "weibull_scale": 4.0 + 0.02 * j + 0.05 * c}[nm]
+            if variant == "B" and nm == names[0] and 3 <= c < n - 3 and 3 <= j < npr - 3:
+                base += 0.5
+            return base
+
+        return f
+
+    def arrays(variant):
+        f = pfun(variant)
+        out = {}
+        for nm in names:
+            v = np.zeros((n, npr))
+            for c in range(n):
+                for j in range(npr):
+                    v[c, j] = f(nm, c, (j,))
+            out[nm] = flodym.FlodymArray(dims=dims, values=v)
+        return out
+
+    return grid, extra, dims, labs, names, pfun, arrays
+
+
+def run_large_case(dist, which):
+    """one LARGE model (12 time steps x 100 labels: parameter arrays of 1200 entries) and a second one - a new model
+    or the same object re-parametrised - whose parameters differ from the first only in the interior of the array"""
+    import flodym
+
+    case = dict(large=True, dist=dist, which=which)
+    grid, extra, dims, labs, names, pfun, arrays = large_setup(dist)
+
+    def compare(lm, variant):
+        sf_m, _ = dsm.sf_table(grid, dist, pfun(variant), "middle", 1, labs)
+        sf_i = lm.sf
+        for (t, c, lab), v in sf_m.items():
+            if v is not None and not abs(float(sf_i[(t, c) + lab]) - v) <= TOL:
+                return f"model {variant}: sf[t={t}, c={c}, label={lab}] = {float(sf_i[(t, c) + lab])!r}, the distribution's survival function gives {v!r}"
+        return None
+
+    def go():
+        cls = getattr(flodym, dist)
+        a = cls(dims=dims, **arrays("A"))
+        d = compare(a, "A")
+        if d:
+            return d
+        if which == "second-model":
+            b = cls(dims=dims, **arrays("B"))
+        else:
+            b = a
+            b.set_prms(**arrays("B"))
+        return compare(b, "B")
+
+    st, d = attempt(go)
+    if st == "raised":
+        return "fail", dict(case=case, tags=dict(dist=dist, kind="raised", pshape="large"), what=f"large {dist} model (12 x 100), {which}: raised {d}")
+    if d:
+        return "fail", dict(case=case, tags=dict(dist=dist, kind="sf-value", pshape="large"), what=f"large {dist} model (12 x 100), {which}: {d}")
+    return "table-agrees (large)", None
+
+
 def run_unit(u):
     tier = u["tier"]
     res = dict(evals=0, nontrivial=0, outcomes={}, fails=[], samples=[])
+    if u.get("large"):
+        for which in ("second-model", "set_prms"):
+            oc, f = run_large_case(u["dist"], which)
+            res["evals"] += 1
+            res["nontrivial"] += 1
+            res["outcomes"][oc] = res["outcomes"].get(oc, 0) + 1
+            if f:
+                res["fails"].append(f)
+        return res
     k = 0
     for extra in EXTRAS_Q if tier == "quick" else EXTRAS_T:
         for shapes2 in shape_pairs(extra, tier):
             for quad in quads(tier):
                 k += 1
-                vias = VIAS if tier == "thorough" and quad[1] in (1, 4) else (VIAS[k % 4], VIAS[4 + k % 3])
+                vias = VIAS if tier == "thorough" and quad[1] in (1, 4) else (VIAS[k % 4], VIAS[4 + k % 4])
                 if tier == "thorough" and len(extra) == 2 and quad[1] not in (1, 2, 5, 10):
                     continue
                 for via in vias:
@@ -173,5 +257,8 @@ def run_unit(u):
 
 
 def replay(case):
+    if case.get("large"):
+        oc, f = run_large_case(case["dist"], case["which"])
+        return [f] if f else []
     oc, f = run_case(case["grid"], case["lt"], tuple(case["quad"]), case["extra"], tuple(case["shapes"]), case["via"])
     return [f] if f else []
